@@ -6,7 +6,8 @@ Trace == ndJsonDeserialize("trace.ndjson")
 VARIABLES l, bad
 
 SeqOf(t) == [i \in 1..Len(t) |-> t[i]]
-KwsOf(e) == {SeqOf(e.kw[i]) : i \in 1..Len(e.kw)}
+(* the keywords: the list handed to the controller, or what the documented format of the raw option value says *)
+KwsOf(e) == IF Len(e.kwopt) > 0 THEN ParseOption(SeqOf(e.kwopt)) ELSE {SeqOf(e.kw[i]) : i \in 1..Len(e.kw)}
 LinesOf(e) == [i \in 1..Len(e.lines) |-> SeqOf(e.lines[i])]
 
 TraceNext ==
